@@ -91,3 +91,6 @@ func (p *Parser) VerifPendingBody() [][]byte {
 	}
 	return br.RawBodyBuffers()
 }
+
+// VerifCachedHandle returns the handle of the parser's cache buffer (nil when there is none).
+func (p *Parser) VerifCachedHandle() *[]byte { return p.bytesCached }
